@@ -76,8 +76,8 @@ def eval_graph(nodes, edges, root, level_var, n):
     return t if root > 0 else T.neg(t, n)
 
 
-def bdd_stream(ctx, n, order, tts):
-    M = Mgr(ctx, f'views n={n} order={order}', n, order)
+def bdd_stream(ctx, n, order, tts, aged=False):
+    M = Mgr(ctx, f'views n={n} order={order} aged={aged}', n, order, aged=aged)
     rng = ctx.rng
     refs = []
     for t in tts:
@@ -86,6 +86,14 @@ def bdd_stream(ctx, n, order, tts):
             continue
         M.op('incref', u)
         refs.append((rng.choice([1, -1]) * u, t))
+        if aged and rng.random() < 0.5:
+            # free numbers and let later nodes re-use them; move levels
+            M.build(rng.getrandbits(1 << n))
+            M.op('gc', None)
+            if n >= 2 and rng.random() < 0.5:
+                x = rng.randrange(n - 1)
+                M.op('swap', x, x + 1)
+    refs = [(u, M.tt(u)) for u, _ in refs]
     for _ in range(len(refs)):
         k = rng.randint(1, min(3, len(refs)))
         roots = rng.sample(refs, k)
@@ -212,9 +220,11 @@ def run(ctx):
     rng = ctx.rng
     for order in gen.orders(3):
         bdd_stream(ctx, 3, order, sorted(rng.sample(range(256), 6 if q else 60)))
+        bdd_stream(ctx, 3, order, sorted(rng.sample(range(256), 6 if q else 40)), aged=True)
         autoref_stream(ctx, 3, order, sorted(rng.sample(range(256), 5 if q else 50)))
     for order in rng.sample(gen.orders(4), 2 if q else 12):
         bdd_stream(ctx, 4, order, [rng.getrandbits(16) for _ in range(4 if q else 20)])
+        bdd_stream(ctx, 4, order, [rng.getrandbits(16) for _ in range(4 if q else 20)], aged=True)
         autoref_stream(ctx, 4, order, [rng.getrandbits(16) for _ in range(2 if q else 10)])
     for n in (1, 2):
         for order in gen.orders(n):
